@@ -61,12 +61,31 @@ theorem lossless_ordered (h : Reach lim ls s) (hc : s.closing = false) (k : Key)
     cases hcd : s.closed with
     | false => rfl
     | true => have := hi.closed_closing hcd; simp_all
-  have h1 := hi.lossless hc k hf
+  have h1 := hi.lossless hcl k hf
   have hst : s.started k = s.processed k ++ inflight s k := by
     rcases hi.started_spec hcl k with h2 | ⟨w, e, _, _, h2⟩
     · simp [inflight, h2]
     · simp [inflight, h2]
-  rw [h1, hst]
+  rw [h1, hst, hi.dropped_nil hc k]
+  simp
+
+/-- **Graceful drain: the same conservation law holds through the whole shutdown**, i.e. after the
+    watcher left its loop (`closing`), while EOS markers are put and the workers deplete their queues —
+    up to the moment `scheduler.close()` starts cancelling (`closed`). The only event that can get lost
+    in that phase is one that sat in the watcher's hand when it was cancelled (`dropped`; in the real
+    watcher there is no suspension point between taking an event and enqueueing it, so it stays empty —
+    the trace check confirms `dropped = []` on every real run). -/
+theorem drain_lossless (h : Reach lim ls s) (hcl : s.closed = false) (k : Key)
+    (hf : s.failedK k = false) :
+    s.arrived k = s.processed k ++ inflight s k ++ backlogEvs s k ++ handEvs s k ++ s.dropped k ∧
+    (s.closing = false → s.dropped k = []) := by
+  have hi := inv_reach h
+  have h1 := hi.lossless hcl k hf
+  have hst : s.started k = s.processed k ++ inflight s k := by
+    rcases hi.started_spec hcl k with h2 | ⟨w, e, _, _, h2⟩
+    · simp [inflight, h2]
+    · simp [inflight, h2]
+  exact ⟨by rw [h1, hst], fun hc => hi.dropped_nil hc k⟩
 
 /-- **Order and no duplication hold in EVERY reachable state — also during shutdown, after a worker
     failure, after `scheduler.close()`**: processed ++ in-flight ++ waiting (++ in hand) is, in that
@@ -112,15 +131,6 @@ theorem serial (h : Reach lim ls s) {w w' : Wid} {e e' : Ev}
     (no second processor call can start before the first one ended). -/
 theorem serial_step (h : Reach lim ls s) {w w' : Wid} {e e' : Ev} {s' : State}
     (hb : s.pc w' = some (.busy e')) (ht : step s (.take w e) = some s') : w.key ≠ w'.key := by
-  have hi := inv_reach h
-  intro hk
-  have huniq := hi.uniq w w'
-  step_cases ht
-  grind [Pc.live_spawned, Pc.live_waiting, Pc.live_busy]
-
-/-- … and the same for the take that follows a timeout on a filled queue. -/
-theorem serial_step_timeout (h : Reach lim ls s) {w w' : Wid} {e e' : Ev} {s' : State}
-    (hb : s.pc w' = some (.busy e')) (ht : step s (.timeoutTake w e) = some s') : w.key ≠ w'.key := by
   have hi := inv_reach h
   intro hk
   have huniq := hi.uniq w w'
@@ -214,7 +224,8 @@ theorem quiescent_complete (h : Reach lim ls s) (hpos : ∀ n, lim = some n → 
       simp [hpc w] at hp
   refine ⟨?_, hstr, hpc, hpend, hrun⟩
   intro k hf
-  have h1 := hi.lossless hc k hf
+  have h1 := hi.lossless hcl k hf
+  rw [hi.dropped_nil hc k] at h1
   have h2 : s.started k = s.processed k := by
     rcases hi.started_spec hcl k with h2 | ⟨w, e, _, hp, _⟩
     · exact h2
@@ -286,16 +297,214 @@ theorem reaches_quiescence (h : Reach lim ls s) :
         · simp only [run, runWith, hs1]; exact hr
         · simp; omega
 
-/-- **"… is still processed", as a statement about executions**: take any reachable state (e.g. the one
-    right after an event arrived at the very instant its idle worker retired), let the system run by
-    itself in ANY order until nothing is enabled (that takes at most `measure s` segments and always
-    happens, see above). If the watch is then still alive, every event that was ever delivered for a
-    non-failed key has been processed. -/
-theorem eventually_processed (h : Reach lim ls s) (hpos : ∀ n, lim = some n → 0 < n)
+/-- Corollary for whole-system quiescence (kept for reference; the per-key statements below do not need
+    the whole system to be idle): a run that ends with nothing enabled and the watch alive has processed
+    everything. -/
+theorem quiescent_run_complete (h : Reach lim ls s) (hpos : ∀ n, lim = some n → 0 < n)
     (ls' : List Label) (s' : State) (hr : run s ls' = some s') (hq : Quiescent step s')
     (hc : s'.closing = false) (k : Key) (hf : s'.failedK k = false) :
     s'.processed k = s'.arrived k :=
   (quiescent_complete (ls := ls ++ ls') (run_append h hr) hpos hq hc).1 k hf
+
+/-- **The pending queue is FIFO**: whatever segment runs, `Scheduler._pending_coros` stays as it was, or
+    gets a newly created worker appended at its END (`insert`), or loses its HEAD, which is spawned
+    (`spawn`). So a pending worker waits exactly for a free slot and for the workers enqueued before it —
+    which is within "the configured worker limit" — and is never overtaken. -/
+theorem pendingQ_fifo {s s' : State} {l : Label} (h : step s l = some s') :
+    s'.pendingQ = s.pendingQ ∨ (∃ w, s'.pendingQ = s.pendingQ ++ [w] ∧ s'.pc w = some .pending) ∨
+    (∃ w, s.pendingQ = w :: s'.pendingQ ∧ s'.pc w = some .spawned ∧ s'.running = s.running ++ [w]) := by
+  cases l <;> step_cases h <;> simp_all
+
+/-! ### Per key: progress, bounded work, completeness — independent of what other keys do
+
+`kmeasure s k` (Model file) is the outstanding work of key `k` alone: its event in the watcher's hand, its
+worker instances by program counter, its backlog. `l.key? s` is the key a label acts on. -/
+
+/-- every internal segment of key `k` strictly decreases `k`'s outstanding work … -/
+theorem key_step_decreases (h : Reach lim ls s) {l : Label} {s' : State} {k : Key}
+    (hs : step s l = some s') (hk : l.key? s = some k) (hl : l.internal = true) :
+    kmeasure s' k < kmeasure s k :=
+  (measureOn_step (φ := fun j => j == k) (inv_reach h) hs).1 k hk (by simp) hl
+
+/-- … and NO segment of anything else — another key's arrivals, processing, retirements, failures,
+    spawns, the watcher's cancellation, `scheduler.close()` — ever increases it. Only an arrival for
+    `k` itself can. -/
+theorem key_step_frame (h : Reach lim ls s) {l : Label} {s' : State} {k : Key}
+    (hs : step s l = some s') (hk : l.key? s ≠ some k) : kmeasure s' k ≤ kmeasure s k := by
+  refine (measureOn_step (φ := fun j => j == k) (inv_reach h) hs).2 ?_
+  intro k' hk'
+  have : k' ≠ k := fun e => hk (e ▸ hk')
+  simpa using this
+
+/-- **Bounded work per key, under ANY behaviour of the other keys**: in every run from a reachable state
+    that contains no further arrival for `k` (but arbitrary arrivals, processing and failures of other
+    keys, cancellation, shutdown), the number of segments of `k` is at most `kmeasure s k`. -/
+theorem key_work_bounded (h : Reach lim ls s) (k : Key) :
+    ∀ (ls' : List Label) (s' : State), NoArrivalFor k ls' → run s ls' = some s' →
+      kSteps k s ls' + kmeasure s' k ≤ kmeasure s k := by
+  intro ls'
+  induction ls' generalizing s ls with
+  | nil => intro s' _ hr; simp [run, runWith] at hr; subst hr; simp [kSteps]
+  | cons l ls' ih =>
+    intro s' hna hr
+    simp only [run, runWith] at hr
+    split at hr
+    · rename_i s1 hs1
+      have h1 : Reach lim (ls ++ [l]) s1 := run_append h (by simp [run, runWith, hs1])
+      have h2 := ih h1 s' (fun l' hl' => hna l' (by simp [hl'])) hr
+      simp only [kSteps, hs1]
+      by_cases hk : l.key? s = some k
+      · have hl : l.internal = true := by
+          have hn := hna l (by simp)
+          cases l <;> simp [Label.internal] <;> simp [Label.key?] at hk
+          · subst hk; exact ((hn _).1 rfl).elim
+          · subst hk; exact ((hn _).2 rfl).elim
+        have := key_step_decreases h hs1 hk hl
+        simp [hk]; omega
+      · have := key_step_frame h hs1 hk
+        simp [hk]; omega
+    · cases hr
+
+/-- **Completeness per key**: as soon as key `k` has no outstanding work (`kmeasure s k = 0`: nothing of
+    `k` in the hand, no worker instance of `k` left) and the watch is alive, every event ever delivered
+    for `k` has been processed, in order — whatever the other keys are doing at that moment. -/
+theorem key_done_complete (h : Reach lim ls s) (hc : s.closing = false) (k : Key)
+    (hf : s.failedK k = false) (hz : kmeasure s k = 0) : s.processed k = s.arrived k := by
+  have hi := inv_reach h
+  have hcl : s.closed = false := by
+    cases hcd : s.closed with
+    | false => rfl
+    | true => have := hi.closed_closing hcd; simp_all
+  have hz' := hz
+  simp only [kmeasure, measureOn] at hz'
+  have hhand : handEvs s k = [] := by
+    simp only [handEvs]
+    cases hh : s.hand with
+    | none => rfl
+    | some ke =>
+      obtain ⟨k', e⟩ := ke
+      by_cases hkk : k' = k
+      · subst hkk; simp [handW, hh] at hz'
+      · simp [hkk]
+  have hnoinst : ∀ w, w.key = k → s.pc w = none := by
+    intro w hwk
+    cases hp : s.pc w with
+    | none => rfl
+    | some p =>
+      exfalso
+      have hpos : 0 < instW s w := by
+        simp only [instW, hp]; cases p <;> simp [pcW] <;> omega
+      have hmem : w ∈ onKeys (fun j => j == k) s.pendingQ ∨ w ∈ onKeys (fun j => j == k) s.running := by
+        by_cases hpp : p = .pending
+        · subst hpp; exact Or.inl (mem_onKeys.2 ⟨(hi.pend_iff w).2 hp, by simp [hwk]⟩)
+        · exact Or.inr (mem_onKeys.2 ⟨(hi.run_iff w).2 ⟨p, hp, hpp⟩, by simp [hwk]⟩)
+      rcases hmem with hm | hm
+      · have := sumW_pos_of_mem hm hpos; omega
+      · have := sumW_pos_of_mem hm hpos; omega
+  have hstr : s.streams k = none := by
+    cases hst : s.streams k with
+    | none => rfl
+    | some b =>
+      exfalso
+      obtain ⟨w, p, hwk, hp, _⟩ := hi.stream_live hcl k (by simp [hst])
+      rw [hnoinst w hwk] at hp; cases hp
+  have h1 := lossless_ordered h hc k hf
+  have h2 : inflight s k = [] := by
+    rcases inflight_spec h hcl k with ⟨h2, _⟩ | ⟨w, e, hwk, hp, _⟩
+    · exact h2
+    · rw [hnoinst w hwk] at hp; cases hp
+  simp [backlogEvs, hstr, hhand, h2] at h1
+  exact h1.symm
+
+/-- … and through the graceful drain of a shutdown (scheduler not yet closed): once key `k` has no
+    outstanding work, everything delivered for it has been processed — except an event that was in the
+    cancelled watcher's hand (`dropped`, empty in every real run). -/
+theorem key_drained_complete (h : Reach lim ls s) (hcl : s.closed = false) (k : Key)
+    (hf : s.failedK k = false) (hstr : s.streams k = none) (hh : handEvs s k = []) :
+    s.arrived k = s.processed k ++ s.dropped k := by
+  have hi := inv_reach h
+  have h1 := (drain_lossless h hcl k hf).1
+  have h2 : inflight s k = [] := by
+    rcases inflight_spec h hcl k with ⟨h2, _⟩ | ⟨w, e, hwk, hp, _⟩
+    · exact h2
+    · exact absurd (hwk ▸ hstr) (hi.live_stream w _ hp rfl)
+  simpa [backlogEvs, hstr, hh, h2] using h1
+
+/-- **Progress per key — "events of different objects never wait for each other beyond the worker
+    limit"**: while the scheduler is open, a key with a stream entry or an event in the watcher's hand can
+    ALWAYS move by a segment of its own that is enabled right now — unless its worker is still queued in
+    the scheduler, and then only because every slot is taken (`running.length ≥ limit`) or because an
+    EARLIER-enqueued worker is at the head, which can be spawned right now (FIFO, `pendingQ_fifo`).
+    Nothing else — no other key's backlog, processing time or idle worker outside the limit — can hold it. -/
+theorem key_progress (h : Reach lim ls s) (hc : s.closed = false) (k : Key)
+    (hw : s.streams k ≠ none ∨ ∃ e, s.hand = some (k, e)) :
+    (∃ l, l.internal = true ∧ l.key? s = some k ∧ (step s l).isSome = true) ∨
+    (∃ w, w.key = k ∧ s.pc w = some .pending ∧ w ∈ s.pendingQ ∧
+      ((∃ n, s.limit = some n ∧ n ≤ s.running.length) ∨
+       (∃ w', s.pendingQ.head? = some w' ∧ w' ≠ w ∧ (step s .spawn).isSome = true))) := by
+  have hi := inv_reach h
+  rcases hw with hst | ⟨e, hh⟩
+  · obtain ⟨w, p, hwk, hp, hlive⟩ := hi.stream_live hc k hst
+    subst hwk
+    cases p with
+    | pending =>
+      have hmem := (hi.pend_iff w).2 hp
+      cases hq : s.pendingQ with
+      | nil => rw [hq] at hmem; cases hmem
+      | cons w' rest =>
+        by_cases hcs : canSpawn s = true
+        · by_cases hww : w' = w
+          · subst hww
+            left
+            exact ⟨.spawn, rfl, by simp [Label.key?, hq], by simp [step, stepCore, hq, hcs]⟩
+          · right
+            exact ⟨w, rfl, hp, hq ▸ hmem, Or.inr ⟨w', by simp, hww, by simp [step, stepCore, hq, hcs]⟩⟩
+        · right
+          refine ⟨w, rfl, hp, hq ▸ hmem, Or.inl ?_⟩
+          unfold canSpawn at hcs
+          cases hl : s.limit with
+          | none => simp [hl] at hcs
+          | some n => exact ⟨n, rfl, by simpa [hl] using hcs⟩
+    | spawned => left; exact ⟨.start w, rfl, rfl, by simp [step, stepCore, hc, hp]⟩
+    | waiting =>
+      left
+      cases hb : s.streams w.key with
+      | none => exact absurd hb hst
+      | some b =>
+        cases b with
+        | nil => exact ⟨.retire w, rfl, rfl, by simp [step, stepCore, hc, hp, hb]⟩
+        | cons i r =>
+          cases i with
+          | ev e => exact ⟨.take w e, rfl, rfl, by simp [step, stepCore, hc, hp, hb]⟩
+          | eos => exact ⟨.eosExit w, rfl, rfl, by simp [step, stepCore, hc, hp, hb]⟩
+    | busy e => left; exact ⟨.finish w, rfl, rfl, by simp [step, stepCore, hc, hp]⟩
+    | checked => exact absurd hp (hi.no_checked w)
+    | leaving f => simp at hlive
+  · left
+    exact ⟨.insert, rfl, by simp [Label.key?, hh], by simp [step, stepCore, hh]⟩
+
+/-- **A queued worker is never overtaken** (multi-step form of `pendingQ_fifo`): across any segment, a
+    pending worker is either spawned or still pending with no MORE workers ahead of it than before. -/
+theorem pending_never_overtaken (h : Reach lim ls s) {l : Label} {s' : State} {w : Wid}
+    (hs : step s l = some s') (hw : w ∈ s.pendingQ) :
+    s'.pc w = some .spawned ∨ (w ∈ s'.pendingQ ∧ s'.pendingQ.idxOf w ≤ s.pendingQ.idxOf w) := by
+  have hi := inv_reach h
+  rcases pendingQ_fifo hs with he | ⟨x, he, _⟩ | ⟨x, he, hx, _⟩
+  · right; rw [he]; exact ⟨hw, Nat.le_refl _⟩
+  · right; rw [he]
+    exact ⟨by simp [hw], by simp [List.idxOf_append, hw]⟩
+  · by_cases hxw : x = w
+    · subst hxw; left; exact hx
+    · right
+      rw [he] at hw
+      have hw' : w ∈ s'.pendingQ := by
+        rcases List.mem_cons.1 hw with h1 | h1
+        · exact absurd h1.symm hxw
+        · exact h1
+      refine ⟨hw', ?_⟩
+      have hb : (x == w) = false := by simpa using hxw
+      rw [he, List.idxOf_cons, hb]
+      exact Nat.le_succ _
 
 /-- `worker_limit = 0` starves every object (why `quiescent_complete` asks for a positive limit). -/
 theorem limit_zero_starves :
@@ -318,15 +527,6 @@ theorem independent_spawn (s : State) :
     | none => simp [step, stepCore, canSpawn, hq, hl]
     | some n => by_cases hn : s.running.length < n <;> simp [step, stepCore, canSpawn, hq, hl, hn]
 
-/-- **The pending queue is FIFO**: whatever segment runs, `Scheduler._pending_coros` stays as it was, or
-    gets a newly created worker appended at its END (`insert`), or loses its HEAD, which is spawned
-    (`spawn`). So a pending worker waits exactly for a free slot and for the workers enqueued before it —
-    which is within "the configured worker limit" — and is never overtaken. -/
-theorem pendingQ_fifo {s s' : State} {l : Label} (h : step s l = some s') :
-    s'.pendingQ = s.pendingQ ∨ (∃ w, s'.pendingQ = s.pendingQ ++ [w] ∧ s'.pc w = some .pending) ∨
-    (∃ w, s.pendingQ = w :: s'.pendingQ ∧ s'.pc w = some .spawned ∧ s'.running = s.running ++ [w]) := by
-  cases l <;> step_cases h <;> simp_all
-
 /-- **Frame**: a worker segment of key `k'` leaves every other key's component untouched — stream,
     histories, failure flag and the program counters of all other keys' instances. -/
 theorem frame_other_key {s s' : State} {l : Label} {w : Wid} (k : Key) (hk : w.key ≠ k)
@@ -341,6 +541,36 @@ theorem frame_other_key {s s' : State} {l : Label} {w : Wid} (k : Key) (hk : w.k
     intro w' h1 h2; rw [h2] at h1; exact hk h1
   rcases hl with rfl | rfl | rfl | rfl | rfl | rfl | rfl | rfl <;> step_cases h <;>
     simp_all
+
+/-! ### Which queue an event goes to -/
+
+theorem orDash_inj {a b : Option String} (ha : FieldOK a) (hb : FieldOK b) (h : orDash a = orDash b) :
+    a = b := by
+  cases a <;> cases b <;> simp_all [orDash, FieldOK]
+  all_goals (split at h <;> simp_all)
+
+/-- **One object ↔ one queue (uid-less fallback)**: for two non-bookmark events without `metadata.uid`
+    whose identity fields are well-formed, the keys coincide iff kind, apiVersion, name, namespace and
+    creationTimestamp coincide; with a uid the key is the uid alone; bookmarks reach no queue.
+    (`keyOf` is compared with the real `get_uid` / watcher filter on an exhaustive grid on every run.) -/
+theorem keyOf_spec (r₁ r₂ : RawId) :
+    (r₁.bookmark = true → keyOf r₁ = none) ∧
+    (r₁.bookmark = false → ∀ u, r₁.uid = some u → keyOf r₁ = some [u]) ∧
+    (r₁.bookmark = false → r₂.bookmark = false → r₁.uid = none → r₂.uid = none →
+      FieldOK r₁.kind → FieldOK r₂.kind → FieldOK r₁.apiVersion → FieldOK r₂.apiVersion →
+      FieldOK r₁.name → FieldOK r₂.name → FieldOK r₁.ns → FieldOK r₂.ns → FieldOK r₁.ts → FieldOK r₂.ts →
+      (keyOf r₁ = keyOf r₂ ↔ r₁.kind = r₂.kind ∧ r₁.apiVersion = r₂.apiVersion ∧ r₁.name = r₂.name ∧
+        r₁.ns = r₂.ns ∧ r₁.ts = r₂.ts)) := by
+  refine ⟨fun h => by simp [keyOf, h], fun h u hu => by simp [keyOf, h, hu], ?_⟩
+  intro h1 h2 u1 u2 k1 k2 a1 a2 n1 n2 s1 s2 t1 t2
+  simp only [keyOf, h1, h2, u1, u2]
+  constructor
+  · intro h
+    simp at h
+    exact ⟨orDash_inj k1 k2 h.1, orDash_inj a1 a2 h.2.1, orDash_inj n1 n2 h.2.2.1,
+           orDash_inj s1 s2 h.2.2.2.1, orDash_inj t1 t2 h.2.2.2.2⟩
+  · rintro ⟨e1, e2, e3, e4, e5⟩
+    simp [e1, e2, e3, e4, e5]
 
 /-- **Non-vacuity of the whole development**: split the worker's retirement into "see the empty
     backlog" and "`del streams[key]`" with one interleaving point in between (`stepBuggy`), and an event
